@@ -77,7 +77,7 @@ func c03Decode(h, maxLen int) []int {
 
 func c03Tier(tier string) (maxLen, exh, random int) {
 	if tier == "thorough" {
-		return 4, c03ExhCount(4) * 3, 1000000
+		return 4, c03ExhCount(4) * 3, 5000000
 	}
 	return 3, c03ExhCount(3) * 3, 200000
 }
